@@ -211,6 +211,8 @@ def g_dgm(r, nmin=1, nmax=6, integer=False, inf=False, wide=False):
     while len(pts) < nmin:
         pts.append(G.bar(mode or "half"))
     a = np.array(pts, dtype=float)
+    if mode == "lattice" and r.random() < 0.5:
+        a = a * 20.0                    # integer coordinates up to 120: squares and sums leave the narrow integer dtypes
     a = a[np.lexsort((-a[:, 1], a[:, 0]))] if r.random() < 0.3 else a
     if inf and r.random() < 0.4:
         a = np.vstack([a, [[float(r.randint(0, 3)), np.inf]]])
